@@ -12,6 +12,7 @@ from .truthiness import check_truthiness
 
 EXPLANATION = (
     "'Any history' is addressed by per-method induction, not by exploring histories. Decides: "
+    "R-position-truthiness (a name bound only to positions -- .index(), a search over enumerate -- is never tested by truthiness: `if position:` takes position 0 for not found and the first leader is not replaced); "
     "R-comutation (symbolic delta analysis of every constructor case and mutator of GroupedList, on "
     "every path and for every aliasing of the symbolic arguments consistent with the path's tests: "
     "the elements added to / removed from the list equal the keys added to / removed from `content`, "
@@ -23,7 +24,7 @@ EXPLANATION = (
     "test a data value for truthiness); R-sortby-used (results of the pure sort_by / sort are used)."
 )
 NOT_DECIDED = "disjointness of groups under arbitrary update(); equality with a reference model along concrete histories (exploration / model checking)"
-FLOORS = {"R-comutation": 7, "R-append-absent": 14, "R-value-truthiness": 2, "R-nan-aware-lookup": 3, "R-no-raw-mutators": 1, "R-sortby-used": 5}
+FLOORS = {"R-comutation": 7, "R-append-absent": 14, "R-value-truthiness": 2, "R-nan-aware-lookup": 3, "R-no-raw-mutators": 1, "R-sortby-used": 5, "R-position-truthiness": 1}
 
 RAW = {"insert", "extend", "reverse", "clear", "__setitem__", "__delitem__", "popitem"}
 
@@ -286,6 +287,7 @@ MUTANTS = [
     M("D15-reverted: default group appended unconditionally", [(F_QUAL, "                if self.str_default not in order:\n                    order.append(self.str_default)\n", "                order.append(self.str_default)\n")], "R-append-absent", "CategoricalDiscretizer.fit", quick=True),
     M("D28-reverted: unknown value appended although StringDiscretizer may have recorded it", [(F_QUAL, "                        if unknown_value not in order:\n                            order.append(unknown_value)\n", "                        order.append(unknown_value)\n")], "R-append-absent", "unknown_value", quick=True),
     M("D8-reverted: str_nan appended for every unknown value", [(F_QUAL, "                        if self.str_nan not in order:\n                            order.append(self.str_nan)\n", "                        order.append(self.str_nan)\n")], "R-append-absent", "ChainedDiscretizer._prepare_data"),
+    M("replace_group_leader tests the position by truthiness", [(F_GL, "            group_idx = self.index(group_leader)\n            self[group_idx] = group_member\n", "            group_idx = self.index(group_leader)\n            if group_idx:\n                self[group_idx] = group_member\n")], "R-position-truthiness", "replace_group_leader"),
     M("remove forgets content", [(F_GL, "        super().remove(value)\n        self.content.pop(value)\n", "        super().remove(value)\n")], "R-comutation", "GroupedList.remove"),
     M("append forgets content", [(F_GL, "        self += [new_value]\n        self.content.update({new_value: [new_value]})\n", "        self += [new_value]\n")], "R-comutation", "GroupedList.append"),
     M("group keeps the discarded leader in the list", [(F_GL, "            # removing discarded from the list\n            self.remove(discarded)\n", "")], "R-comutation", "GroupedList.group"),
